@@ -192,6 +192,7 @@ impl FrameWriter for QuicFrameWriter {
                 "Datagram not allowed for this connection",
             ));
         }
+        frame.check_encodable()?;
         let fragments = Fragments::make_fragments(mtu.unwrap(), &mut self.frame_id, frame);
         let mut len = 0;
         for fragment in fragments {
